@@ -76,6 +76,7 @@ fn relational(rep: &mut Report, rng: &mut Rng, n: usize) {
         let mut prog = setup.clone();
         let mut applied: std::collections::BTreeSet<(i64, i64)> = Default::default();
         let mut prev_residual: Option<Vec<Vec<u32>>> = None;
+        let mut vf_residual: Option<usize> = None; let mut vf_applied = false;
         let mut bad = None;
         for s in 0..c.steps {
             for (at, (a, b)) in &c.late_edges { if *at == s { let t = format!("(edge {a} {b})"); engine::run(&mut eg, &t); engine::run(&mut builtin, &t); prog.push_str(&t); prog.push('\n'); } }
@@ -87,6 +88,14 @@ fn relational(rep: &mut Report, rng: &mut Rng, n: usize) {
             if let Some(d) = engine::dump_defects(&engine::raw_dump(&eg)) { bad = Some(("c18-not-canonical", format!("step {s}: {d}"))); break; }
             let lg = log.lock().unwrap();
             for (rule, tuples, chosen, all) in lg.offers[before..].iter() {
+                if rule == "vf" {
+                    // variable-free head: matches are anonymous, so the same obligations by count
+                    if let Some(prev) = vf_residual { if tuples.len() < prev { bad = Some(("c18-match-lost", format!("step {s}: rule `vf` (variable-free head) had {prev} matches offered earlier and not chosen, only {} are offered now", tuples.len()))); } }
+                    let mut cs = chosen.clone(); cs.sort(); cs.dedup();
+                    vf_residual = Some(if *all { 0 } else { tuples.len() - cs.len() });
+                    if (*all && !tuples.is_empty()) || !cs.is_empty() { vf_applied = true; }
+                    continue;
+                }
                 if rule != "base" { continue; }
                 // (3) residual of the previous step must be offered again
                 if let Some(prev) = &prev_residual { let mut pool = tuples.clone(); for t in prev { if let Some(p) = pool.iter().position(|x| x == t) { pool.remove(p); } else { bad = Some(("c18-match-lost", format!("step {s}: match {t:?} was offered earlier, not chosen, and is not offered again"))); } } }
@@ -106,6 +115,8 @@ fn relational(rep: &mut Report, rng: &mut Rng, n: usize) {
             let decode = |x: i64| -> i64 { eg.value_to_base::<i64>(<egglog::Value as egglog_numeric_id::NumericId>::new(x as u32)) };
             let want: std::collections::BTreeSet<(i64, i64)> = applied.iter().map(|(a, b)| (decode(*a), decode(*b))).collect();
             if fired != want { bad = Some(("c18-actions-vs-chosen", format!("step {s}: rule head ran for {fired:?}, the scheduler chose {want:?}"))); break; }
+            if c.varfree { let flag = d.tables.iter().any(|t| t.name == "flag" && !t.rows.is_empty());
+                if flag != vf_applied { bad = Some(("c18-actions-vs-chosen", format!("step {s}: the variable-free head `(flag)` ran: {flag}, a match of its rule was chosen: {vf_applied}"))); break; } }
         }
         if c.steps > 2 && c.policy != Policy::All { rep.note_nontrivial(&c); }
         if ci < 2 { rep.sample(json!({"policy": format!("{:?}", c.policy), "program": prog.clone()})); }
